@@ -36,9 +36,13 @@ def run(ctx):
                    "distinct; K.28 / alternate-7 patches on unused slots", min_sites=21)
     ctx.rule("K4", "alternate 3b/4b code selection: alt7 flags = y == 7 & (x in {17,18,20} at RD- | x in {11,13,14} at RD+ | k); "
                    "0111 / 1000 emitted exactly under them and flip the running disparity", min_sites=5)
+    ctx.rule("K5", "stream wrappers keep the lanes apart: lane i of the wide stream word (8 data bits, its own k flag, 10 code bits) "
+                   "is wired to word i of the coder and back -- index and slice bounds agree with the lane of the other side",
+             min_sites=6)
     ctx.rule("PRIO", "no dead driver", min_sites=1)
 
     m = ctx.mod(F)
+    _k5(ctx)
     # ================================================================ K1
     fx = fx_of(ctx, F, "SingleEncoder")
     fail_closed(ctx, fx, "SingleEncoder")
@@ -235,6 +239,55 @@ def run(ctx):
             ok = len(dd) == 1 and dd[0].v == "~disp_inter"
             ctx.ob("K4", F, "SingleEncoder", f"alternate code {'0111' if v == '7' else '1000'} flips the running disparity", ok,
                    "" if ok else f"{[(a.v, a.gtext()) for a in dd]}", arms[v].line)
+
+
+def _lane(text, iv):
+    """(base path, lane width w) when `text` is base[i] (w = 1) or base[w*i : w*(i+1)] in the loop variable iv, else None"""
+    from .. import lin
+    try:
+        e = ast.parse(text, mode="eval").body
+    except SyntaxError:
+        return None
+    if not isinstance(e, ast.Subscript):
+        return None
+    base = norm(e.value)
+    if not isinstance(e.slice, ast.Slice):
+        return (base, 1) if norm(e.slice) == iv else None
+    if e.slice.lower is None or e.slice.upper is None or e.slice.step is not None:
+        return None
+    lo, hi = lin.linform(e.slice.lower), lin.linform(e.slice.upper)
+    w = lo.get(iv) if set(lo) <= {iv} else None
+    if not isinstance(w, int) or w <= 0:
+        return None
+    return (base, w) if lin.sub(hi, lo) == {1: w} and not lin.sub(lo, {iv: w}) else None
+
+
+def _k5(ctx):
+    want = {"StreamEncoder": [("self.encoder.k", 1, "self.sink.k", 1), ("self.encoder.d", 1, "self.sink.d", 8),
+                              ("self.source.data", 10, "self.encoder.output", 1)],
+            "StreamDecoder": [("decoders.input", 0, "self.sink.data", 10), ("self.source.k", 1, "decoders.k", 0),
+                              ("self.source.d", 8, "decoders.d", 0)]}
+    for cls, rows in want.items():
+        fx = fx_of(ctx, F, cls)
+        lanes = [a for a in fx.find(domain="comb") if a.loops and any(it.startswith("range(") for _, it in a.loops)]
+        for tb, tw, vb, vw in rows:
+            def side(text, iv, base, w):
+                if w == 0:
+                    # a port of the i-th coder: decoders[i].input
+                    obj, attr = base.split(".")
+                    return text == f"{obj}[{iv}].{attr}"
+                ln = _lane(text, iv)
+                return ln == (base, w)
+            hit = []
+            for a in lanes:
+                iv = a.loops[-1][0]
+                if (side(a.t, iv, tb, tw) or (tw and (_lane(a.t, iv) or ("", 0))[0] == tb) or (not tw and a.t.startswith(tb.split(".")[0] + "[") and
+                                                                                         a.t.endswith("." + tb.split(".")[1]))):
+                    hit.append((a, iv))
+            ok = len(hit) == 1 and side(hit[0][0].t, hit[0][1], tb, tw) and side(hit[0][0].v, hit[0][1], vb, vw) and not hit[0][0].guards
+            ctx.ob("K5", F, cls, f"lane i: {tb} <- {vb}", ok,
+                   "" if ok else f"{[(a.t, a.v) for a, _ in hit] or 'no per-lane driver'}: word i of the coder is not wired to lane i of the stream (its own "
+                                 f"{vw or 1}-bit slice / flag): lanes are mixed up or share one bit", hit[0][0].line if hit else 0)
 
 
 def _idx(a):
